@@ -8,9 +8,17 @@ import (
 	"encoding/json"
 	"fmt"
 	"math/big"
+	"strconv"
 	"strings"
+	"time"
 
+	abci "github.com/cometbft/cometbft/abci/types"
 	sdk "github.com/cosmos/cosmos-sdk/types"
+	authtypes "github.com/cosmos/cosmos-sdk/x/auth/types"
+	govtypes "github.com/cosmos/cosmos-sdk/x/gov/types"
+	govv1 "github.com/cosmos/cosmos-sdk/x/gov/types/v1"
+
+	"mods.irisnet.org/simapp"
 
 	rectypes "mods.irisnet.org/modules/record/types"
 
@@ -42,6 +50,16 @@ type Config struct {
 	POtherMsg  float64     `json:"p_other_message"`
 	PBurst     float64     `json:"p_burst"`
 	PFavourite float64     `json:"p_favourite"` // share of creations using pool[0] from one creator
+	// governance route: records created by passed proposals (executed in gov's end blocker,
+	// outside any transaction)
+	GovVotingSec    int64   `json:"gov_voting_sec"` // 0: leave the gov parameters alone, no proposals
+	GovExpeditedSec int64   `json:"gov_expedited_voting_sec"`
+	GovDepositSec   int64   `json:"gov_max_deposit_sec"`
+	GovMinDeposit   int64   `json:"gov_min_deposit"`
+	PGov            float64 `json:"p_gov"`
+	PGovNoVote      float64 `json:"p_gov_no_vote"`
+	PGovExpedited   float64 `json:"p_gov_expedited"`
+	PGovFavourite   float64 `json:"p_gov_favourite"`
 }
 
 type rec struct {
@@ -52,6 +70,29 @@ type rec struct {
 	Height   int64
 	OpID     int
 	Order    int
+	// Gov: created by a passed proposal, outside a transaction. Its stored transaction hash
+	// is whatever the module stores for "no transaction"; it is pinned at the first read-back
+	// and must never change afterwards. NoContents: the proposal was not one of the run's.
+	Gov        bool
+	HashPinned bool
+	PinnedHash string
+	NoContents bool
+}
+
+// proposal is a governance proposal of this run carrying record creations.
+type proposal struct {
+	ID       uint64
+	Tag      string
+	Msgs     [][]Content
+	Height   int64 // submitted
+	OpID     int
+	Voted    bool
+	Finished bool
+}
+
+type queued struct {
+	tp *engine.TxPlan
+	at int64
 }
 
 type burst struct {
@@ -72,10 +113,19 @@ type Module struct {
 	inBlock  map[string]int   // creator|contents -> accepted creations in the current block
 	blockH   int64
 	rolled   bool // a creation was rolled back since the last accepted one
+
+	props     map[uint64]*proposal
+	queue     []queued // planned governance transactions (generation mode only)
+	govSeq    int
+	govAddr   string
+	govSeenAt map[string]int64 // contents -> height of the last record a proposal created with them
+	storeDiff int              // creations by proposals whose ids the events did not carry
 }
 
 func New() *Module {
-	return &Module{recs: map[string]*rec{}, lastSeen: map[string]int64{}, inBlock: map[string]int{}}
+	return &Module{recs: map[string]*rec{}, lastSeen: map[string]int64{}, inBlock: map[string]int{},
+		props: map[uint64]*proposal{}, govSeenAt: map[string]int64{},
+		govAddr: authtypes.NewModuleAddress(govtypes.ModuleName).String()}
 }
 
 func (m *Module) Name() string { return Name }
@@ -99,7 +149,16 @@ func (m *Module) Configure(w *engine.World, r *engine.Rand) any {
 		POtherMsg:  0.3 * r.Float(),
 		PBurst:     0.15 * r.Float(),
 		PFavourite: 0.2 + 0.6*r.Float(),
+
+		GovVotingSec:  6 + r.Int63n(15),
+		GovDepositSec: 5 + r.Int63n(60),
+		GovMinDeposit: 1 + r.Int63n(1000),
+		PGov:          0.04 + 0.12*r.Float(),
+		PGovNoVote:    0.2 * r.Float(),
+		PGovExpedited: 0.3 * r.Float(),
+		PGovFavourite: 0.5 + 0.5*r.Float(),
 	}
+	c.GovExpeditedSec = 2 + r.Int63n(c.GovVotingSec-2)
 	n := 1 + r.Intn(5)
 	for i := 0; i < n; i++ {
 		var set []Content
@@ -144,6 +203,28 @@ func (m *Module) Setup(w *engine.World) {
 	w.NeedDenom(Std, new(big.Int).Lsh(big.NewInt(1), 100))
 }
 
+// Genesis shortens the governance periods so that proposals reach their tally inside a run.
+// Quorum and thresholds keep their defaults: actor 0 holds the whole bonded stake (genesis
+// delegation), so its YES decides.
+func (m *Module) Genesis(w *engine.World, n *engine.Node, gs simapp.GenesisState) {
+	if m.cfg.GovVotingSec <= 0 {
+		return
+	}
+	cdc := n.App.AppCodec()
+	var g govv1.GenesisState
+	cdc.MustUnmarshalJSON(gs[govtypes.ModuleName], &g)
+	vp := time.Duration(m.cfg.GovVotingSec) * time.Second
+	evp := time.Duration(m.cfg.GovExpeditedSec) * time.Second
+	dp := time.Duration(m.cfg.GovDepositSec) * time.Second
+	g.Params.VotingPeriod, g.Params.ExpeditedVotingPeriod, g.Params.MaxDepositPeriod = &vp, &evp, &dp
+	g.Params.MinDeposit = sdk.NewCoins(sdk.NewInt64Coin(Std, m.cfg.GovMinDeposit))
+	g.Params.ExpeditedMinDeposit = sdk.NewCoins(sdk.NewInt64Coin(Std, 2*m.cfg.GovMinDeposit))
+	if err := g.Params.ValidateBasic(); err != nil {
+		engine.Fatal("record: generated invalid gov params: %v", err)
+	}
+	gs[govtypes.ModuleName] = cdc.MustMarshalJSON(&g)
+}
+
 // ---- operations ------------------------------------------------------------------------
 
 type createArgs struct {
@@ -159,6 +240,66 @@ type sendArgs struct {
 
 var tooMuch = new(big.Int).Lsh(big.NewInt(1), 200).String()
 
+// govArgs: "gov_record" submits a proposal whose messages are record creations in the name
+// of the gov module account; "gov_vote" is actor 0's YES on the proposal that the submit op
+// tagged Tag was given (label "record/prop/<Tag>", bound when the submit response is seen).
+type govArgs struct {
+	Tag       string      `json:"tag"`
+	Msgs      [][]Content `json:"msgs,omitempty"`
+	Deposit   string      `json:"deposit,omitempty"`
+	Expedited bool        `json:"expedited,omitempty"`
+}
+
+func (m *Module) govSubmit(r *engine.Rand, actor int, msgs [][]Content, expedited bool) (*engine.TxPlan, string) {
+	m.govSeq++
+	tag := fmt.Sprintf("g%d", m.govSeq)
+	dep := m.cfg.GovMinDeposit
+	if expedited {
+		dep = 2 * m.cfg.GovMinDeposit
+	}
+	dep += r.Int63n(3)
+	return engine.Tx1(engine.NewOp(Name, "gov_record", actor, govArgs{Tag: tag, Msgs: msgs, Deposit: fmt.Sprint(dep), Expedited: expedited})), tag
+}
+
+func govVote(tag string) *engine.TxPlan {
+	tp := engine.Tx1(engine.NewOp(Name, "gov_vote", 0, govArgs{Tag: tag}))
+	tp.NoOOG = true
+	return tp
+}
+
+// planGov queues one governance scenario: byte-identical proposals once, twice in one block
+// or in two consecutive blocks; the vote follows in the next block (or never).
+func (m *Module) planGov(w *engine.World, r *engine.Rand) {
+	nAct := len(w.Actors) - 1
+	set := m.cfg.Pool[0]
+	if !r.Bool(m.cfg.PGovFavourite) {
+		set = m.cfg.Pool[r.Intn(len(m.cfg.Pool))]
+	}
+	msgs := [][]Content{set}
+	if r.Bool(0.3) {
+		msgs = append(msgs, set) // two identical creations inside one proposal
+	} else if r.Bool(0.15) {
+		msgs = append(msgs, m.cfg.Pool[r.Intn(len(m.cfg.Pool))])
+	}
+	expedited := r.Bool(m.cfg.PGovExpedited)
+	base := w.Height + 1
+	shape := r.Intn(4) // 0,1: single; 2: two in one block; 3: two in consecutive blocks
+	offsets := []int64{0}
+	switch shape {
+	case 2:
+		offsets = []int64{0, 0}
+	case 3:
+		offsets = []int64{0, 1}
+	}
+	for _, off := range offsets {
+		tp, tag := m.govSubmit(r, r.Intn(nAct), msgs, expedited)
+		m.queue = append(m.queue, queued{tp, base + off})
+		if !r.Bool(m.cfg.PGovNoVote) {
+			m.queue = append(m.queue, queued{govVote(tag), base + off + 1})
+		}
+	}
+}
+
 func (m *Module) contents(r *engine.Rand) []Content {
 	if r.Bool(m.cfg.PFavourite) {
 		return m.cfg.Pool[0]
@@ -168,6 +309,18 @@ func (m *Module) contents(r *engine.Rand) []Content {
 
 func (m *Module) Gen(w *engine.World, r *engine.Rand) *engine.TxPlan {
 	nAct := len(w.Actors) - 1
+	if len(m.queue) == 0 && m.cfg.GovVotingSec > 0 && r.Bool(m.cfg.PGov) {
+		m.planGov(w, r)
+	}
+	if len(m.queue) > 0 {
+		q := m.queue[0]
+		m.queue = m.queue[1:]
+		q.tp.At = q.at
+		if q.tp.At <= w.Height {
+			q.tp.At = w.Height + 1
+		}
+		return q.tp
+	}
 	if m.burst.left > 0 && m.burst.at > w.Height {
 		// several identical records from one creator, in separate transactions of one block
 		m.burst.left--
@@ -254,6 +407,31 @@ func (m *Module) Build(w *engine.World, op *engine.Op) (sdk.Msg, error) {
 			return nil, fmt.Errorf("bad amount %q", a.Amount)
 		}
 		return engine.BankSendMsg(sender, w.A(a.To).Addr, sdk.NewCoins(sdk.Coin{Denom: Std, Amount: engine.Int(amt)})), nil
+	case "gov_record":
+		var a govArgs
+		op.Decode(&a)
+		var msgs []sdk.Msg
+		for _, cs := range a.Msgs {
+			msgs = append(msgs, &rectypes.MsgCreateRecord{Contents: toMsgContents(cs), Creator: m.govAddr})
+		}
+		dep, ok := new(big.Int).SetString(a.Deposit, 10)
+		if !ok {
+			return nil, fmt.Errorf("bad deposit %q", a.Deposit)
+		}
+		return govv1.NewMsgSubmitProposal(msgs, sdk.NewCoins(sdk.Coin{Denom: Std, Amount: engine.Int(dep)}), sender.String(),
+			"records by governance", "create records", "the gov module account creates records", a.Expedited)
+	case "gov_vote":
+		var a govArgs
+		op.Decode(&a)
+		v, ok := w.Resolve("record/prop/" + a.Tag)
+		if !ok {
+			return nil, fmt.Errorf("proposal %s not submitted (yet)", a.Tag)
+		}
+		id, err := strconv.ParseUint(v, 10, 64)
+		if err != nil {
+			return nil, err
+		}
+		return govv1.NewMsgVote(sender, id, govv1.OptionYes, ""), nil
 	}
 	return nil, fmt.Errorf("unknown op %s", op.Kind)
 }
@@ -277,10 +455,175 @@ func fingerprint(creator string, cs []Content) string {
 	return creator + "|" + string(bz)
 }
 
+// onGovTx follows the governance messages of an accepted transaction.
+func (m *Module) onGovTx(w *engine.World, tx *engine.TxRecord) {
+	for i, op := range tx.Plan.Ops {
+		if op.Mod != Name {
+			continue
+		}
+		switch op.Kind {
+		case "gov_record":
+			var a govArgs
+			op.Decode(&a)
+			var resp govv1.MsgSubmitProposalResponse
+			if !tx.Resp(i, &resp) || resp.ProposalId == 0 {
+				engine.Fatal("record: accepted proposal submission (op %d) returned no proposal id", op.ID)
+			}
+			m.props[resp.ProposalId] = &proposal{ID: resp.ProposalId, Tag: a.Tag, Msgs: a.Msgs, Height: tx.Height, OpID: op.ID}
+			if _, taken := w.Resolve("record/prop/" + a.Tag); !taken {
+				w.Label("record/prop/"+a.Tag, fmt.Sprint(resp.ProposalId))
+			}
+			w.Hit("record.gov_proposal_submitted")
+		case "gov_vote":
+			var a govArgs
+			op.Decode(&a)
+			if v, ok := w.Resolve("record/prop/" + a.Tag); ok {
+				if id, err := strconv.ParseUint(v, 10, 64); err == nil && m.props[id] != nil {
+					m.props[id].Voted = true
+					w.Hit("record.gov_vote_cast")
+				}
+			}
+		}
+	}
+}
+
+func evAttr(ev abci.Event, key string) string {
+	for _, a := range ev.Attributes {
+		if a.Key == key {
+			return a.Value
+		}
+	}
+	return ""
+}
+
+// OnEndBlock: gov executes the messages of a passed proposal in its end blocker; the record
+// module's creation events of that phase carry the ids, followed by gov's tally event of the
+// proposal they belong to.
+func (m *Module) OnEndBlock(w *engine.World, ph *engine.Phase) {
+	var ids []string
+	for _, ev := range ph.Events {
+		switch ev.Type {
+		case rectypes.EventTypeCreateRecord:
+			ids = append(ids, evAttr(ev, rectypes.AttributeKeyRecordID))
+		case govtypes.EventTypeActiveProposal:
+			pid, _ := strconv.ParseUint(evAttr(ev, govtypes.AttributeKeyProposalID), 10, 64)
+			result := evAttr(ev, govtypes.AttributeKeyProposalResult)
+			p := m.props[pid]
+			if p != nil && result != govtypes.AttributeValueExpeditedProposalRejected {
+				p.Finished = true
+			}
+			if result == govtypes.AttributeValueProposalPassed {
+				m.govExecuted(w, ph, p, pid, ids)
+			} else if p != nil {
+				w.Hit("record.gov_proposal_not_passed")
+			}
+			ids = nil
+		}
+	}
+}
+
+// govExecuted judges the creations of one executed proposal: "two creations never receive the
+// same id" - k creations must show k ids that are new in the run.
+func (m *Module) govExecuted(w *engine.World, ph *engine.Phase, p *proposal, pid uint64, ids []string) {
+	if p == nil {
+		// not one of this run's proposals: its records (if any) are still records
+		for _, id := range ids {
+			m.govRecord(w, ph, nil, pid, 0, id, nil)
+		}
+		return
+	}
+	w.Hit("record.gov_proposal_passed")
+	if len(ids) < len(p.Msgs) {
+		// the events do not carry every id: the store is compared with the known ids after
+		// the commit
+		m.storeDiff += len(p.Msgs) - len(ids)
+	}
+	for i, id := range ids {
+		var cs []Content
+		if i < len(p.Msgs) {
+			cs = p.Msgs[i]
+		}
+		m.govRecord(w, ph, p, pid, i, id, cs)
+	}
+}
+
+func (m *Module) govRecord(w *engine.World, ph *engine.Phase, p *proposal, pid uint64, i int, id string, cs []Content) {
+	w.Hit("C19.id_checks")
+	w.Hit("record.gov_records_created")
+	norm := strings.ToLower(id)
+	fp := fingerprint(m.govAddr, cs)
+	if cs != nil {
+		if h := m.govSeenAt[fp]; h > 0 && h != ph.Height {
+			w.Hit("record.gov_identical_proposals_different_blocks")
+			if ph.Height-h == 1 {
+				w.Hit("record.gov_identical_proposals_consecutive_blocks")
+			}
+		} else if h == ph.Height {
+			w.Hit("record.gov_identical_in_one_block")
+		}
+		m.govSeenAt[fp] = ph.Height
+	}
+	opID := -1
+	if p != nil {
+		opID = p.OpID
+	}
+	if old := m.recs[norm]; id == "" || old != nil {
+		if id == "" {
+			w.Violate(Prop, "response/no-id-gov-executed", "proposal %d executed at height %d: creation %d reports no id", pid, ph.Height, i)
+			return
+		}
+		rel := "another-block"
+		if old.Height == ph.Height {
+			rel = "same-block"
+		}
+		w.Violate(Prop, "id/duplicate/gov-executed", "record creation %d of proposal %d (submitted by op %d), executed by governance at height %d, received id %s, which the creation at height %d (op %d, creator %s, by governance: %v, %s) already received; contents identical: %v - the earlier record is silently overwritten",
+			i, pid, opID, ph.Height, id, old.Height, old.OpID, old.Creator, old.Gov, rel, fingerprint(old.Creator, old.Contents) == fp)
+		return
+	}
+	m.recs[norm] = &rec{ID: id, Contents: cs, Creator: m.govAddr, Height: ph.Height, OpID: opID, Order: len(m.order), Gov: true, NoContents: cs == nil}
+	m.order = append(m.order, norm)
+}
+
+// storeDiffCheck is the fall-back for creations whose ids no event carried: every stored
+// record the run does not know yet is a new id; there must be at least as many as creations.
+func (m *Module) storeDiffCheck(w *engine.World) {
+	want := m.storeDiff
+	m.storeDiff = 0
+	it := w.Node.K.Record.RecordsIterator(w.Node.Ctx())
+	defer it.Close()
+	var fresh []string
+	for ; it.Valid(); it.Next() {
+		id := hex.EncodeToString(it.Key()[len(rectypes.RecordKey):])
+		if m.recs[id] == nil {
+			fresh = append(fresh, id)
+		}
+	}
+	if len(fresh) < want {
+		w.Violate(Prop, "id/duplicate/gov-executed-store", "governance executed %d record creations at height %d whose ids no event reported; only %d records unknown so far appeared in the store", want, w.Height, len(fresh))
+	}
+	for _, id := range fresh {
+		m.recs[id] = &rec{ID: id, Creator: m.govAddr, Height: w.Height, OpID: -1, Order: len(m.order), Gov: true, NoContents: true}
+		m.order = append(m.order, id)
+	}
+}
+
+// MaxDue keeps the quiesce phase going until every voted proposal was tallied.
+func (m *Module) MaxDue(w *engine.World) int64 {
+	for _, p := range m.props {
+		if p.Voted && !p.Finished {
+			return w.Height + 1
+		}
+	}
+	return 0
+}
+
 func (m *Module) OnTx(w *engine.World, tx *engine.TxRecord) {
 	if tx.Height != m.blockH {
 		m.blockH = tx.Height
 		m.inBlock = map[string]int{}
+	}
+	if tx.OK() {
+		m.onGovTx(w, tx)
 	}
 	creates, failing := 0, false
 	for _, op := range tx.Plan.Ops {
@@ -406,6 +749,21 @@ func (m *Module) check(w *engine.World, rc *rec) {
 		w.Violate(Prop, "readback/missing/"+age, "record %s (op %d, created at height %d by %s) is gone at height %d", rc.ID, rc.OpID, rc.Height, rc.Creator, w.Height)
 		return
 	}
+	if rc.Gov {
+		// no transaction created it: whatever hash the module stored must stay what it was
+		if !rc.HashPinned {
+			rc.HashPinned, rc.PinnedHash = true, got.TxHash
+		} else if got.TxHash != rc.PinnedHash {
+			w.Violate(Prop, "readback/tx-hash-changed/"+age, "record %s (created by governance at height %d): transaction hash read back %s, at creation %s", rc.ID, rc.Height, got.TxHash, rc.PinnedHash)
+		}
+		if got.Creator != rc.Creator {
+			w.Violate(Prop, "readback/creator-gov/"+age, "record %s (created by governance at height %d): creator read back %s, the proposal's message names %s", rc.ID, rc.Height, got.Creator, rc.Creator)
+		}
+		if !rc.NoContents && !sameContents(rc.Contents, got.Contents) {
+			w.Violate(Prop, "readback/contents-gov/"+age, "record %s (created by governance at height %d): contents read back %v, the proposal's message carried %v", rc.ID, rc.Height, got.Contents, rc.Contents)
+		}
+		return
+	}
 	if got.Creator != rc.Creator {
 		w.Violate(Prop, "readback/creator/"+age, "record %s (op %d, height %d): creator read back %s, created by %s", rc.ID, rc.OpID, rc.Height, got.Creator, rc.Creator)
 	}
@@ -421,6 +779,9 @@ func (m *Module) check(w *engine.World, rc *rec) {
 const sampleAbove = 200
 
 func (m *Module) OnCommit(w *engine.World) {
+	if m.storeDiff > 0 {
+		m.storeDiffCheck(w)
+	}
 	n := len(m.order)
 	if n == 0 {
 		return
